@@ -42,6 +42,32 @@ def gen(chk, tier):
         # encodings
         for name, p1 in (("generic", a), ("inf", None)):
             g.one("bytes_" + name, "pt.bytes", p1=proj(rng, p1))
+    # histories on the point register machine: objects live across operations (storage sharing /
+    # modified operands show up at a later read); every register is re-checked after every step
+    fns = ["add", "double", "negate", "set", "select"]
+    for _ in range(12 if q else 300):
+        k = g.scenario("register_history")
+        names = ["A", "B", "C"]
+        for nm in names:
+            g.add(k, "ptm.new", r=nm, p1=proj(rng, rng.choice([ec.mul(rscalar(rng)), ec.G, None, ec.mul(2)])))
+        for _ in range(rng.randrange(3, 9)):
+            fn = rng.choice(fns)
+            dst = rng.choice(names + ["D", "E"])
+            a_, b_ = rng.choice(names), rng.choice(names)
+            g.add(k, "ptm.op", fn=fn, dst=dst, a=a_, b=b_, cond=rng.randrange(2))
+            if dst not in names:
+                names.append(dst)
+    # the specific shapes: result into a fresh receiver, then an in-place operation on result or operand
+    for fn in ("negate", "set", "double", "add", "select"):
+        for second in ("double", "add"):
+            for target in ("dst", "a"):
+                k = g.scenario("register_%s_then_inplace_%s_on_%s" % (fn, second, target))
+                g.add(k, "ptm.new", r="A", p1=proj(rng, ec.mul(rscalar(rng))))
+                g.add(k, "ptm.new", r="B", p1=proj(rng, ec.mul(rscalar(rng))))
+                g.add(k, "ptm.op", fn=fn, dst="N", a="A", b="B", cond=1)
+                t = "N" if target == "dst" else "A"
+                g.add(k, "ptm.op", fn=second, dst=t, a=t, b="B", cond=0)
+                g.add(k, "ptm.op", fn="add", dst="S", a="A", b="N", cond=0)
     # points whose affine coordinates have leading zero bytes (safe vs fast conversion, padding)
     x, found = 0, []
     while len(found) < (2 if q else 10):
